@@ -47,3 +47,10 @@ Theorem C05_cbc_single_alert : forall dec mac hdr payload,
   (exists pt, cbc_open dec mac hdr payload = Opened pt) \/ cbc_open dec mac hdr payload = Refused 20.
 Proof. exact cbc_single_alert. Qed.
 Print Assumptions C05_cbc_single_alert.
+
+(* the numbers and tables this property's model uses are the ones the sources declare: Model/GenConsts.v is
+   regenerated from the repository under test (tools/consts) before every build *)
+From V Require Import Model.GenConsts Proofs.TieC05.
+Theorem C05_constants_are_the_sources : TieC05.tie.
+Proof. exact TieC05.tie_holds. Qed.
+Print Assumptions C05_constants_are_the_sources.
